@@ -19,7 +19,8 @@ import (
 )
 
 // Loopback S3 (path-style) used as the storage behind the real discovery/decoder in C36: ListObjectsV2,
-// GetObject (whole / bytes=a-b / bytes=a- / bytes=-n), HeadBucket, PutObject. Every request is
+// GetObject (whole / bytes=a-b / bytes=a- / bytes=-n), HeadBucket, PutObject. The LastModified of a
+// listing entry can be set per object (PutMod) or left out. Every request is
 // logged so that the harness can tell which topics' segment objects were downloaded in full.
 
 type c36S3Op struct {
@@ -31,12 +32,13 @@ type c36S3Op struct {
 type c36S3 struct {
 	mu   sync.Mutex
 	objs map[string][]byte
+	mod  map[string]string // object key -> LastModified reported by ListObjectsV2 ("-" = element omitted; unset = c36DefaultModified)
 	log  []c36S3Op
 	srv  *httptest.Server
 }
 
 func c36NewS3() *c36S3 {
-	s := &c36S3{objs: map[string][]byte{}}
+	s := &c36S3{objs: map[string][]byte{}, mod: map[string]string{}}
 	s.srv = httptest.NewServer(http.HandlerFunc(s.serve))
 	return s
 }
@@ -50,10 +52,35 @@ func (s *c36S3) Put(key string, body []byte) {
 	s.mu.Unlock()
 }
 
+// c36DefaultModified is the LastModified the listing reports for an object stored with Put.
+const c36DefaultModified = "2024-01-01T00:00:00.000Z"
+
+// PutMod stores an object whose listing entry carries LastModified lm (ISO 8601), or no
+// LastModified element at all when lm is "-".
+func (s *c36S3) PutMod(key string, body []byte, lm string) {
+	s.mu.Lock()
+	s.objs[key] = append([]byte(nil), body...)
+	if lm == "" {
+		delete(s.mod, key)
+	} else {
+		s.mod[key] = lm
+	}
+	s.mu.Unlock()
+}
+
+// Delete removes one object.
+func (s *c36S3) Delete(key string) {
+	s.mu.Lock()
+	delete(s.objs, key)
+	delete(s.mod, key)
+	s.mu.Unlock()
+}
+
 // Reset removes every object and clears the request log.
 func (s *c36S3) Reset() {
 	s.mu.Lock()
 	s.objs = map[string][]byte{}
+	s.mod = map[string]string{}
 	s.log = nil
 	s.mu.Unlock()
 }
@@ -95,7 +122,7 @@ type c36ListResult struct {
 
 type c36ListObject struct {
 	Key          string `xml:"Key"`
-	LastModified string `xml:"LastModified"`
+	LastModified string `xml:"LastModified,omitempty"`
 	ETag         string `xml:"ETag"`
 	Size         int    `xml:"Size"`
 	StorageClass string `xml:"StorageClass"`
@@ -125,7 +152,14 @@ func (s *c36S3) serve(w http.ResponseWriter, r *http.Request) {
 		sort.Strings(keys)
 		res := c36ListResult{Xmlns: "http://s3.amazonaws.com/doc/2006-03-01/", Name: bucket, Prefix: prefix, KeyCount: len(keys), MaxKeys: 1000}
 		for _, k := range keys {
-			res.Contents = append(res.Contents, c36ListObject{Key: k, LastModified: "2024-01-01T00:00:00.000Z", ETag: `"0"`, Size: len(s.objs[k]), StorageClass: "STANDARD"})
+			lm := c36DefaultModified
+			if v, ok := s.mod[k]; ok {
+				lm = v
+				if v == "-" {
+					lm = ""
+				}
+			}
+			res.Contents = append(res.Contents, c36ListObject{Key: k, LastModified: lm, ETag: `"0"`, Size: len(s.objs[k]), StorageClass: "STANDARD"})
 		}
 		s.mu.Unlock()
 		w.Header().Set("Content-Type", "application/xml")
